@@ -123,6 +123,9 @@ def check_smap_reify_var(ctx, lib, rule):
         ext = [e for e in st if e[0] == "call" and suffix_match(e[1], "SMap::extend")]
         if len(ext) != 1:
             return (None, "exactly one binding must be added for a free variable")
+        cond = [x for x in st if isinstance(x, tuple) and x and (x[0] in ("if", "match", "ret", "loop", "while", "for") or any(y[0] == "ret" for y in sym.subterms(x)))]
+        if cond:
+            return (None, "every free variable of the answer must be bound unconditionally (a skipped variable is not renamed and its constraints are purged); found %s" % show(cond[0], maxdepth=4)[:160])
         e = ext[0]
         recv, k, v = e[2]
         is_clone = recv[0] == "call" and "clone" in recv[1].lower() and unify(pat("@0"), recv[2][0]) is not None
@@ -153,9 +156,96 @@ def check_lresult(ctx, lib, rule):
         ctx.expect(ok, rule, fn["npath"] + "|filter", site_of(fn), "relevant() must keep every constraint one of whose operands is among the given variables")
 
 
+def check_store_walk_star(ctx, lib, rule):
+    """The constraints attached to an answer are the stored pairs with *both* sides fully resolved
+    (walk*, not a one-step walk) in the answer's substitution; every disequality is carried over."""
+    fn = streams.getfn(ctx, lib, rule, "crate::relation::diseq::DisequalityConstraint::walk_star")
+    if fn:
+        t = sym.Evaluator(lib).fn_term(fn)
+        key = fn["npath"]
+        site = site_of(fn)
+        fors = [s for s in sym.subterms(t) if s[0] == "for"]
+        ok = len(fors) == 1
+        if ok:
+            f = fors[0]
+            src, chain = streams.iter_chain(f[1])
+            ok = not [n for n, _ in chain if n not in streams.ONE_TO_ONE] and unify(AnyOf(pat("@0.0"), pat("smap_ref(@0)")), src) is not None
+            item = ("item", f[1])
+            exts = list(dict.fromkeys(c for c in sym.calls(f[3], "SMap::extend")))
+            want = lambda i: ("call", P("SMap::walk_star"), (("param", 1, ANY), ("proj", item, "tuple", i)))
+            ok = ok and len(exts) == 1 and unify(want(0), exts[0][2][1]) is not None and unify(want(1), exts[0][2][2]) is not None
+            guards = [s for s in sym.subterms(f[3]) if s[0] in ("continue", "break", "ret")]
+            ok = ok and not guards
+        ctx.expect(ok, rule, key + "|deep-walk-both-sides", site, "every stored pair (k, v) must be reported as (walk*(smap, k), walk*(smap, v)); found %s" % show(t, maxdepth=7)[:300])
+    fn = streams.getfn(ctx, lib, rule, "crate::state::constraint::store::ConstraintStore::walk_star")
+    if fn:
+        t = sym.Evaluator(lib).fn_term(fn)
+        key = fn["npath"]
+        site = site_of(fn)
+        fors = [s for s in sym.subterms(t) if s[0] == "for"]
+        ok = len(fors) == 1
+        if ok:
+            f = fors[0]
+            src, chain = streams.iter_chain(f[1])
+            ok = not [n for n, _ in chain if n not in streams.ONE_TO_ONE] and unify(AnyOf(pat("@0.0"), pat("iter(@0)")), src) is not None or unify(pat("iter(@0)"), f[1]) is not None
+            ins = list(dict.fromkeys(c for c in sym.calls(f[3], "insert")))
+            ws = list(dict.fromkeys(c for c in sym.calls(f[3], "DisequalityConstraint::walk_star")))
+            ok = ok and len(ins) == 1 and len(ws) == 1 and ws[0][2][1][:2] == ("param", 1) and any(s == ws[0] for s in sym.subterms(ins[0]))
+            guards = [s for s in sym.subterms(f[3]) if s[0] in ("continue", "break", "ret")]
+            ok = ok and not guards
+        ctx.expect(ok, rule, key + "|carries-every-disequality", site, "each stored disequality must be re-inserted as its walk* image in the given substitution; found %s" % show(t, maxdepth=7)[:300])
+
+
+def check_reify_threading(ctx, lib, rule):
+    """SMap::reify names *every* free variable of the answer: the map being extended is threaded
+    through the head and the tail of a list and through every child of a compound (a step that
+    restarts from `self` forgets the names given so far)."""
+    ev = sym.Evaluator(lib, inline=lambda p, f: False)
+    fn = streams.getfn(ctx, lib, rule, "crate::state::substitution::SMap::reify")
+    if fn:
+        t = ev.fn_term(fn)
+        eff, m = tables.flatten(t)
+        ok = bool(m) and m[0] == "match"
+        if ok:
+            arms = tables.find_arm(m, "LTermInner::Cons")
+            ok = len(arms) == 1
+            if ok:
+                r = tables.result(arms[0][2])
+                h = ("proj", m[1], ANY, 0)
+                tl = ("proj", m[1], ANY, 1)
+                S = ("param", 0, ANY)
+                a = ("call", P("SMap::reify"), (("call", P("SMap::reify"), (S, h)), tl))
+                b = ("call", P("SMap::reify"), (("call", P("SMap::reify"), (S, tl)), h))
+                ok = unify(AnyOf(a, b), r) is not None
+        ctx.expect(ok, rule, fn["npath"] + "|list", site_of(fn), "reify of a list must be reify(reify(self, head), tail): the names given in the head are kept for the tail")
+    fn = streams.getfn(ctx, lib, rule, "crate::state::substitution::SMap::reify_compound")
+    if fn:
+        t = ev.fn_term(fn)
+        key = fn["npath"]
+        fors = [s for s in sym.subterms(t) if s[0] == "for"]
+        res = tables.result(t)
+        ok = len(fors) == 1 and res[0] == "var"
+        if ok:
+            f = fors[0]
+            src, chain = streams.iter_chain(f[1])
+            ok = f[1][0] == "call" and suffix_match(f[1][1], "children") and f[1][2][0][:2] == ("param", 1)
+            asg = list(dict.fromkeys(s for s in sym.subterms(f[3]) if s[0] == "assign"))
+            ok = ok and len(asg) >= 1
+            for a_ in asg:
+                rhs = a_[2]
+                ok = ok and a_[1] == res and rhs[0] == "call" and (suffix_match(rhs[1], "SMap::reify") or suffix_match(rhs[1], "SMap::reify_compound")) and rhs[2][0] == res
+            inits = [st[2] for s in sym.subterms(t) if s[0] == "seq" for st in s[1] if st[0] == "let" and st[1][0] == "pbind" and st[1][1] == res[1]]
+            ok = ok and len(inits) == 1 and inits[0][:2] == ("param", 0)
+            skip = [s for s in sym.subterms(f[3]) if s[0] in ("continue", "break", "ret")]
+            ok = ok and not skip
+        ctx.expect(ok, rule, key + "|children", site_of(fn), "reify of a compound must fold over all children with the map threaded: acc = acc.reify(child); found %s" % show(t, maxdepth=8)[:300])
+
+
 def run(ctx, fb, cfg):
     lib = fb.lib
     R = "C03."
+    check_reify_threading(ctx, lib, R + "K3.reify-threads")
+    check_store_walk_star(ctx, lib, R + "K3.store-walk-star")
     check_reify_goal(ctx, lib, R + "K3.reify-goal")
     check_result_iterator(ctx, lib, R + "K3.result-iterator")
     n = traversal.run_table(ctx, lib, R + "K5.traversal", features={"clpfd"} if cfg != "x" else None)
